@@ -24,17 +24,17 @@ RM = {'r': 'tao::pegtl::rewind_mode::required', 'o': 'tao::pegtl::rewind_mode::o
 CONFIGS = {
     'plain':   ('tao::pegtl::nothing', None,    'vf::lcontrol',    True,  0),
     'plain_nu': ('tao::pegtl::nothing', None,   'vf::lcontrol_nu', False, 0),
-    'void':    ('vf::act_void',  'void',  'vf::lcontrol',    True,  0),
-    'void_nu': ('vf::act_void',  'void',  'vf::lcontrol_nu', False, 0),
+    'void':    ('vf::act_void',  'void',  'vf::lcontrol',    True, 2),
+    'void_nu': ('vf::act_void',  'void',  'vf::lcontrol_nu', False, 2),
     'bool':    ('vf::act_bool',  'bool',  'vf::lcontrol',    True,  2),
     'bool_nu': ('vf::act_bool',  'bool',  'vf::lcontrol_nu', False, 2),
-    'void0':   ('vf::act0_void', 'void0', 'vf::lcontrol',    True,  0),
+    'void0':   ('vf::act0_void', 'void0', 'vf::lcontrol',    True, 2),
     'bool0':   ('vf::act0_bool', 'bool0', 'vf::lcontrol',    True,  2),
     'mustif':  ('tao::pegtl::nothing', None, 'vf::mi_control', True, 0),
     'mustif_bool': ('vf::act_bool', 'bool', 'vf::mi_control', True, 2),
     'statectl': ('tao::pegtl::nothing', None, 'vf::sc_control', True, 0),
     'statectl_bool': ('vf::act_bool', 'bool', 'vf::sc_control', True, 2),
-    'statectl_void0': ('vf::act0_void', 'void0', 'vf::sc_control', True, 0),
+    'statectl_void0': ('vf::act0_void', 'void0', 'vf::sc_control', True, 2),
     'statectl_rot': ('vf::act_bool', 'bool', 'vf::scr_control', True, 2),
     'rmfirst': ('vf::act_bool', 'bool', 'vf::rf_control', True, 2),
 }
